@@ -107,10 +107,11 @@ Proof.
       * rewrite lookup_insert_ne in Hj by congruence. destruct (C j Hj) as [H|H]; [auto|lia].
 Qed.
 
-Lemma step_child_kind pid w w' : step_child pid w = Some w' -> pr_kind (get_proc pid w) = KScript.
+Lemma step_child_kind pid w w' : step_child pid w = Some w' ->
+  pr_kind (get_proc pid w) = KScript /\ pr_state (get_proc pid w) = Running.
 Proof.
   unfold step_child. destruct (pr_state (get_proc pid w)); try discriminate.
-  destruct (pr_kind (get_proc pid w)); [discriminate|reflexivity].
+  destruct (pr_kind (get_proc pid w)); [discriminate|auto].
 Qed.
 
 Lemma keeps_get_proc k w w' : keeps k w w' -> get_proc k w' = get_proc k w.
@@ -120,7 +121,9 @@ Lemma keeps_with_time k t w : keeps k w (w_with_time t w).
 Proof. repeat split; cbn; auto; lia. Qed.
 
 (* the record of a process that runs library code survives any amount of children's activity *)
-Definition lib_at (k : Z) (w : world) : Prop := pr_kind (get_proc k w) = KLib /\ k < w_next_pid w.
+(* [k] is never stepped by the scheduler: it runs library code, or it has ended *)
+Definition lib_at (k : Z) (w : world) : Prop :=
+  (pr_kind (get_proc k w) = KLib \/ pr_state (get_proc k w) <> Running) /\ k < w_next_pid w.
 
 Lemma lib_at_keeps k w w' : lib_at k w -> keeps k w w' -> lib_at k w'.
 Proof.
@@ -132,7 +135,7 @@ Proof.
   induction pids as [|pid rest IH]; intros w L; cbn [settle_pass]; [apply keeps_refl|].
   destruct (step_child pid w) as [w'|] eqn:E.
   - assert (Hne : pid <> k).
-    { intros ->. pose proof (step_child_kind _ _ _ E) as Hs. destruct L as [Hk _]. congruence. }
+    { intros ->. pose proof (step_child_kind _ _ _ E) as [Hs Hr]. destruct L as [[Hk|Hk] _]; congruence. }
     assert (K : keeps k w w') by (eapply keeps_step_child; [exact E|exact Hne|apply L]).
     specialize (IH w' (lib_at_keeps _ _ _ L K)).
     destruct (settle_pass rest w') as [b w'']. cbn [snd] in *. eapply keeps_trans; eassumption.
@@ -194,7 +197,7 @@ Proof. apply keeps_block_fuel. Qed.
 Lemma wf_lib_at w : wf w -> lib_at (w_cur w) w.
 Proof.
   intros [(p & Hp & Hk & _) Hf]. split.
-  - unfold get_proc. rewrite Hp. exact Hk.
+  - left. unfold get_proc. rewrite Hp. exact Hk.
   - apply Hf. rewrite Hp. eauto.
 Qed.
 
@@ -509,37 +512,36 @@ Section Specs.
 
   Lemma h_sigmask p how ns : hoare (st p) (sys_sigmask how ns)
     (fun r w' => exists m, st (pr_with_mask m p) w' /\
-                 (fst r = 0 -> ns = Some [] -> how = SIG_SETMASK -> m = [])) QS.
+                 (ns = Some [] -> how = SIG_SETMASK -> fst r = 0 /\ m = [])) QS.
   Proof.
     unfold sys_sigmask. hb; [apply h_prelude|]. intros f. hpre.
     hb; [apply h_get|]. intros w0. apply hoare_pre. intros w [-> S].
     pose proof S as (_ & _ & E). rewrite (noerr_mask _ _ E).
     eapply hoare_conseq with (P := st p); [intros ? ->; exact S|intros a w' X; exact X|intros w' X; exact X|].
-    assert (Hlog : forall args r outs, hoare (st p) (log CSigmask args [] r outs 0) (fun _ w' => st p w') QS).
-    { intros args r outs w1 (W1 & F1 & E1). cbn. split; [apply wf_with_trace, W1|]. split; [exact F1|exact E1]. }
+    assert (Hlog : forall q args r outs, hoare (st q) (log CSigmask args [] r outs 0) (fun _ w' => st q w') QS).
+    { intros q args r outs w1 (W1 & F1 & E1). cbn. split; [apply wf_with_trace, W1|]. split; [exact F1|exact E1]. }
     destruct ns as [s|].
     - destruct ((how =? SIG_SETMASK) || (how =? SIG_BLOCK) || (how =? SIG_UNBLOCK)) eqn:Eh.
       + hb; [apply (h_upd p _ (nice_with_mask _))|]. intros u; cbv beta.
-        hb.
-        * intros w1 (W1 & F1 & E1). cbn. instantiate (1 := fun _ w' => st (pr_with_mask _ p) w'). cbn.
-          split; [apply wf_with_trace, W1|]. split; [exact F1|exact E1].
-        * intros u1; cbv beta. apply hoare_ret. intros w1 S1. eexists. split; [exact S1|].
-          cbn. intros _ Hs Hh. injection Hs as ->. subst how. cbn. reflexivity.
+        hb; [apply Hlog|]. intros u1; cbv beta. apply hoare_ret. intros w1 S1. eexists. split; [exact S1|].
+        cbn. intros Hs Hh. injection Hs as ->. subst how. cbn. auto.
       + hb; [apply Hlog|]. intros u; cbv beta. apply hoare_ret. intros w1 S1. exists (pr_mask p).
-        split; [destruct p; exact S1|]. cbn. unfold EINVAL. intros Hx. discriminate.
+        split; [destruct p; exact S1|]. intros _ Hh. subst how. cbn in Eh. discriminate.
     - hb; [apply Hlog|]. intros u; cbv beta. apply hoare_ret. intros w1 S1. exists (pr_mask p).
-      split; [destruct p; exact S1|]. intros _ Hx. discriminate.
+      split; [destruct p; exact S1|]. intros Hx. discriminate.
   Qed.
 
-  Lemma h_chdir p path : hoare (st p) (sys_chdir path) (fun r w' => exists c, st (pr_with_cwd c p) w') QS.
+  Lemma h_chdir p path : hoare (st p) (sys_chdir path)
+    (fun r w' => (r = 0 /\ st (pr_with_cwd (abs_path (pr_cwd p) path) p) w') \/ (r = -1 /\ st p w' /\ 0 < pr_errno (curp w'))) QS.
   Proof.
     unfold sys_chdir. hb; [apply h_prelude|]. intros f. hpre.
     hb; [apply h_get|]. intros w0. apply hoare_pre. intros w [-> S].
+    pose proof S as (_ & _ & E). rewrite (noerr_cwd _ _ E).
     eapply hoare_conseq with (P := st p); [intros ? ->; exact S|intros a w' X; exact X|intros w' X; exact X|].
     destruct (fs_lookup _ w) as [[]|].
-    all: try (eapply hoare_conseq; [| | |apply h_fail]; [intros w1 S1; exact S1|intros r w1 (_ & S1 & _); exists (pr_cwd p); destruct p; exact S1|auto]).
+    all: try (eapply hoare_conseq; [| | |apply h_fail]; [intros w1 S1; exact S1|intros r w1 (-> & S1 & He); right; split; [reflexivity|split; [exact S1|rewrite He; unfold ENOTDIR, ENOENT; lia]]|auto]).
     hb; [apply (h_upd p _ (nice_with_cwd _))|]. intros u; cbv beta.
-    eapply hoare_conseq; [| | |apply h_done]; [intros w1 S1; exact S1|intros r w1 [_ S1]; eexists; exact S1|auto].
+    eapply hoare_conseq; [| | |apply h_done]; [intros w1 S1; exact S1|intros r w1 [-> S1]; left; auto|auto].
   Qed.
 
   Lemma h_set_environ p e : hoare (st p) (set_environ e) (fun _ w' => st (pr_with_env e p) w') QS.
